@@ -90,6 +90,7 @@ def _cfgs(tier="quick"):
                 if mb == 3 and r == 2 and keys not in ((0, 1), (0, 7), (3, 4), (6, 7), (2, 5)):
                     continue
                 out.append((mb, keys))
+    out.append((4, (2, 10)))        # 16 slots, minishard numbers with one and two decimal digits (numeric order matters)
     return tuple(out)
 
 
@@ -136,6 +137,11 @@ class ShardClose(Contract):
         if len(ents) != 1 or not isinstance(ents[0].content, SBytes):
             return
         F = ents[0].content
+        # minishards are laid out in increasing NUMBER order: the data blocks are written in that order right after the
+        # placeholder (stated first: it is decided by the identity of the written byte strings, a cheap query)
+        wr0 = getattr(ents[0], "writes", [])
+        order_ok = len(wr0) >= 1 + len(keys) and all(wr0[1 + i][1] is self.minis[k][3] for i, k in enumerate(sorted(keys)))
+        yield ("minishard-data-written-in-increasing-minishard-number-order", order_ok)
         total_data = 0
         data_start = {}
         for k in sorted(keys):
